@@ -268,4 +268,21 @@ PROPS = {
         "level_text": "Flag machine proved; the shutdown contract is checked by injecting Stop and connection loss at arbitrary steps of explored histories of the real code",
         "level_note": "trusted: Coq kernel, extraction, the harness (mock messaging system, consistent mock service, scheduler hooks, frame abstraction in harness/internal/gw); task atomicity (DESIGN section 4); modelled not verified: encoding/json, gorilla/websocket",
     },
+    "C13": {
+        "coq": ["Props/C13.v"],
+        "level": "proof",
+        "harness": ["gwrun", "purediff"],
+        "stages": [("pure", stage_pure, {"suites": ["esqueue"], "n_quick": 8000, "n_thorough": 150000}),
+                   ("gw", stage_gw, {"profiles": [("query", 1200, 8000)], "monitor_props": ("C13", "C01", "C03")})],
+        "rule": "direct-drive op sequences (enqueue, locking task with 0-3 locks, unlock callbacks within the call contract, worker runs) on one real "
+                "EventSubscription compared with the model after every sequence (run log, queue length, lock state, pending wake-ups); histories with "
+                "query resources (raw queries q=0..3 normalised by the service to q=K mod 2, aliasing gets in flight together), query events answered with "
+                "events / full model / error / timeout in any order, further events during the lock; monitor: exactly one query request per loaded "
+                "variant (recorded by introspection right before the query-event task runs), convergence of every alias to its variant's truth, "
+                "no stall (work pending with nothing runnable)",
+        "assumptions": ["the service normalises queries deterministically and answers query requests relative to the state at the query event (one query event per resource in flight at a time)"],
+        "technique": "Coq proof (queue/lock machine: lock blocks the queue, processing always resumes, FIFO; all op sequences) + direct-drive differential of the real EventSubscription + Coq query monitor on scheduled traces of the real gateway",
+        "level_text": "Lock machine proved for all operation sequences and tied to the code by direct drive; the one-request-per-variant rule and convergence of aliases are decidable Coq predicates evaluated on explored histories",
+        "level_note": "trusted: Coq kernel, extraction, the harness (mock messaging system, consistent mock service, scheduler hooks, frame abstraction in harness/internal/gw); task atomicity (DESIGN section 4); modelled not verified: encoding/json, gorilla/websocket",
+    },
 }
